@@ -2561,7 +2561,7 @@ def demoOpq : V2.Opq :=
     nkeys_IsValidPublicUserKey := fun _ => false, nkeys_IsValidPublicCurveKey := fun _ => false,
     nkeys_IsValidPublicServerKey := fun _ => false, time_Parse := fun _ _ => false, net_ParseCIDR := fun _ => false,
     time_LoadLocation := fun _ => false, nkeys_IsValidPublicOperatorKey := fun _ => false,
-    UserClaims_HasEmptyPermissions := fun _ => some true, time_NowAddUnix := fun d => d, sha256_Sum := fun x => x, base32_StdEncode := fun _ => [], json_MarshalClaimsData := fun _ => ([], false), sha512_Sum512_256 := fun x => x, base32_StdNoPadEncode := fun _ => [],
+    UserClaims_HasEmptyPermissions := fun _ => some true, time_NowAddUnix := fun d => d, sha256_Sum := fun x => x, base32_StdEncode := fun _ => [], json_MarshalClaimsData := fun _ => ([], false), ParseDecoratedNKey := fun _ => none, KeyPair_Seed := fun _ => none, nkeys_FromSeed := fun _ => none, sha512_Sum512_256 := fun x => x, base32_StdNoPadEncode := fun _ => [],
     json_Unmarshalanon_GenericClaims_GenericFields := fun _ g => (g, true),
     nkeys_FromPublicKey := fun _ => some 7, nkeys_Prefix := fun _ => 0,
     nkeys_Decode := fun _ _ => some (List.replicate 32 0),
@@ -4006,6 +4006,39 @@ theorem gen_decodeUser_chain (opq : V2.Opq) (tok : Str) (u : V2.T_UserClaims) (e
   obtain ⟨hd', p, s, hdr, data, sig, ver, kp, raw, h1, h2, h3, h4, h5, h6, h7, h8, h9⟩ := gen_decode_authentic opq tok _ hd
   obtain ⟨hv, hl⟩ := gen_loadClaims_user opq data ver u h4
   exact ⟨hd', p, s, hdr, data, sig, ver, kp, raw, h1, h2, h3, hv, hl, h5, h6, h7, h8, h9⟩
+
+/-! ## C15: the user-only key parser, as translated
+
+`ParseDecoratedNKey` (the regular expression and the line scan), `KeyPair.Seed` and `nkeys.FromSeed` are parameters.
+What is translated and proved is the role check around them: a key pair comes back only for a seed that starts with
+`SU` — operator (`SO`) and account (`SA`) seeds are refused whatever the parameters do. -/
+
+theorem gen_parseDecoratedUserNKey (opq : V2.Opq) (contents : List Int) (kp : Nat)
+    (h : V2.ParseDecoratedUserNKey contents opq = some (kp, false)) :
+    ∃ nk seed, opq.ParseDecoratedNKey contents = some (nk, false) ∧ opq.KeyPair_Seed nk = some seed ∧
+      bytesHasPrefix seed (strBytes "SU".toList) = true ∧ opq.nkeys_FromSeed seed = some kp := by
+  unfold V2.ParseDecoratedUserNKey at h
+  rcases hp : opq.ParseDecoratedNKey contents with _ | ⟨nk, e⟩
+  · simp [hp] at h
+  cases e
+  case true => simp [hp] at h
+  rcases hs : opq.KeyPair_Seed nk with _ | seed
+  · simp [hp, hs] at h
+  cases hpre : bytesHasPrefix seed (strBytes ['S', 'U'])
+  · simp [hp, hs, hpre] at h
+  rcases hf : opq.nkeys_FromSeed seed with _ | k
+  · simp [hp, hs, hpre, hf] at h
+  simp [hp, hs, hpre, hf] at h
+  exact ⟨nk, seed, rfl, hs, by simpa using hpre, by rw [hf, h]⟩
+
+/-- in particular: a seed of another role never yields a key pair -/
+theorem gen_parseDecoratedUserNKey_refuses (opq : V2.Opq) (contents : List Int) (nk : Nat) (seed : List Int)
+    (hp : opq.ParseDecoratedNKey contents = some (nk, false)) (hs : opq.KeyPair_Seed nk = some seed)
+    (hpre : bytesHasPrefix seed (strBytes "SU".toList) = false) :
+    V2.ParseDecoratedUserNKey contents opq = some (0, true) := by
+  unfold V2.ParseDecoratedUserNKey
+  have : bytesHasPrefix seed (strBytes ['S', 'U']) = false := by simpa using hpre
+  simp [hp, hs, this]
 
 /-! ## Non-vacuity of the later ties: concrete environments in which the translated functions succeed -/
 
